@@ -4,6 +4,7 @@ import (
 	"math/rand"
 	"runtime"
 	"sync"
+	"verifharness/pathkey"
 
 	"github.com/theQRL/go-qrllib/common"
 	"github.com/theQRL/go-qrllib/xmss"
@@ -36,6 +37,18 @@ type vEvent struct {
 }
 
 func verifyOut(w uint32, msg, sig []byte, pk [67]uint8) (out string, intact bool) {
+	// signature and message are handed over as ONE buffer sig || guard || msg || guard with spare capacity behind
+	// each slice (the layout of a sealed message): what lies behind a slice's length belongs to the caller too
+	const guard = 48
+	buf := make([]byte, len(sig)+guard+len(msg)+guard)
+	for i := range buf {
+		buf[i] = 0xa5
+	}
+	copy(buf, sig)
+	copy(buf[len(sig)+guard:], msg)
+	sig = buf[:len(sig)]
+	msg = buf[len(sig)+guard : len(sig)+guard+len(msg)]
+	b0 := dup(buf)
 	m0, s0, p0 := dup(msg), dup(sig), pk
 	var ok bool
 	res := call(func() {
@@ -45,7 +58,7 @@ func verifyOut(w uint32, msg, sig []byte, pk [67]uint8) (out string, intact bool
 			ok = xmss.VerifyWithCustomWOTSParamW(msg, sig, pk, w)
 		}
 	})
-	intact = string(m0) == string(msg) && string(s0) == string(sig) && p0 == pk
+	intact = string(m0) == string(msg) && string(s0) == string(sig) && p0 == pk && string(b0) == string(buf)
 	if res != "ok" {
 		return res, intact
 	}
@@ -221,6 +234,21 @@ func pathKeyCases(r *rand.Rand, tier string, tr *trace.Buf) {
 					}
 				}
 			}
+		}
+	}
+	// a signer who holds the secret signs under a root that differs from the true one in a few bits: the path
+	// leads to the true root, the public key carries the other one. Patterns that cancel when differences of
+	// words (8, 4, 2 bytes) are folded with xor, and single bits as control.
+	for pi, pos := range [][]int{{0}, {31}, {0, 8}, {3, 11}, {7, 31}, {0, 8, 16, 24}, {0, 4}, {0, 2}, {0, 1}, {5, 13, 21, 29}, {0, 16}} {
+		for hf := 0; hf < 3; hf++ {
+			delta := make([]byte, 32)
+			bit := byte(1) << uint((pi+hf)%8)
+			for _, p := range pos {
+				delta[p] ^= bit
+			}
+			t0 := pathkey.MakeRootDelta(r, 4, hf, uint32(r.Intn(16)), 4, 1+r.Intn(40), delta)
+			t := pathTriple{t0.H, t0.Hf, t0.Idx, t0.Msg, t0.Sig, t0.Pk}
+			emit("path-key-root-delta", t, false, t.msg, t.sig, t.pk)
 		}
 	}
 	// public keys whose root is what an untouched buffer holds (all zero / all 0xff), supported hash function,
@@ -406,6 +434,66 @@ func scenarioEvents(s scenario, all []scenario, r *rand.Rand, tier string, b *tr
 		p[off] ^= 1 << bit
 		return s.msg, s.sig, p
 	})
+	// the SAME bit flipped in two bytes a word apart (a comparison that folds word differences with xor
+	// instead of or lets such pairs cancel): public-key root and seed, and the authentication path
+	if !s.light {
+		for _, d := range []int{8, 1} {
+			d := d
+			var wg sync.WaitGroup
+			evs := make([]vEvent, 67)
+			for off := 3; off+d < 67; off++ {
+				off := off
+				wg.Add(1)
+				go func() {
+					defer wg.Done()
+					e := s.ev("double-bitflip")
+					e.Ev, e.Target, e.Off, e.Intact, e.Same16 = "flip", "pk", off, true, true
+					for bit := uint(0); bit < 8; bit++ {
+						p := s.pk
+						p[off] ^= 1 << bit
+						p[off+d] ^= 1 << bit
+						o, in := verifyOut(0, s.msg, s.sig, p)
+						e.Outs = append(e.Outs, o)
+						e.Intact = e.Intact && in
+					}
+					evs[off] = e
+				}()
+			}
+			wg.Wait()
+			for _, e := range evs {
+				if e.Ev != "" {
+					b.Emit(e)
+				}
+			}
+		}
+		var wg sync.WaitGroup
+		first := len(s.sig) - 32*s.h
+		evs := make([]vEvent, len(s.sig))
+		for off := first; off+8 < len(s.sig); off += 5 {
+			off := off
+			wg.Add(1)
+			go func() {
+				defer wg.Done()
+				e := s.ev("double-bitflip")
+				e.Ev, e.Target, e.Off, e.Intact, e.Same16 = "flip", "sig", off, true, true
+				for bit := uint(0); bit < 8; bit++ {
+					c := dup(s.sig)
+					c[off] ^= 1 << bit
+					c[off+8] ^= 1 << bit
+					o, in := verifyOut(0, s.msg, c, s.pk)
+					e.Outs = append(e.Outs, o)
+					e.Intact = e.Intact && in
+				}
+				evs[off] = e
+			}()
+		}
+		wg.Wait()
+		for _, e := range evs {
+			if e.Ev != "" {
+				b.Emit(e)
+			}
+		}
+	}
 	flipAll("msg", len(s.msg), func(off int, bit uint) ([]byte, []byte, [67]uint8) {
 		c := dup(s.msg)
 		c[off] ^= 1 << bit
